@@ -165,6 +165,8 @@ LAYOUTS = [
     'def {a}[T](x: T): pass', 'class {a}[T]: pass', 'async def {a}[K, V](): pass', 'class {a}[T](object): pass',
     'from .import {a}\nimport {b}', 'from .import {a}\nfrom . import {b}\nimport {c}', 'from .import {a}, {b}\nx = 1\nimport {c} as {d}',
     'from . import {a}\nimport {a}', 'import {a}\nimport {a}', 'from {a} import {b}\nfrom {c} import {b}',
+    'for i in [1]: print({a}); {a} = i', '{a} = 1; {b} = {a}; {a} = 2; {c} = {a}', 'while {a}: {b} = {a}; import {a}',
+    'for {a} in [1]: {b} = {a}; {a} = {b}; def {b}(): pass',
 ]
 NAMES = ['a', 'b', 'os', 'sys', 'x', 'foo', 'bar_1', 'de', 'd', 'def_', 'imp', 'as_', 'A', 'Cls', 'port', 'rom', 'f', 'e', 'n', '_p']
 
@@ -216,6 +218,44 @@ def random_text_cases(ctx, n, scope_mod):
     return cases
 
 
+def goto_failures(ctx, fn, text):
+    """go-to-definition from every name read (cursor at its end and inside it): every position
+    reported for this file must show the identifier in the ORIGINAL text (or the except keyword)."""
+    from supp.project import Project
+    from supp.assistant import location
+    proj = Project([os.path.join(ctx.scratch, 'nonexist')])
+    try:
+        tree = ast.parse(text)
+    except SyntaxError:
+        return 0, []
+    lines = text.splitlines() or ['']
+    reads = [n for n in ast.walk(tree) if isinstance(n, ast.Name) and isinstance(n.ctx, ast.Load)]
+    ctx.rng.shuffle(reads)
+    bad = []
+    n = 0
+    for node in reads[:6]:
+        line = lines[node.lineno - 1]
+        if not line.isascii():
+            continue
+        for col in {node.col_offset + len(node.id), node.col_offset + max(1, len(node.id) // 2)}:
+            try:
+                locs = location(proj, text, (node.lineno, col), fn)
+            except Exception:
+                continue          # crashes are C08's business
+            flat = []
+            for x in locs:
+                flat.extend(x if isinstance(x, list) else [x])
+            for x in flat:
+                if x['file'] != fn:
+                    continue
+                n += 1
+                l, c = x['loc']
+                ok = 1 <= l <= len(lines) and (lines[l - 1][c:c + len(node.id)] == node.id or lines[l - 1][c:c + 6] == 'except')
+                if not ok:
+                    bad.append((node.id, (node.lineno, col), (l, c), lines[l - 1][max(0, c - 8):c + 16] if 1 <= l <= len(lines) else None))
+    return n, bad
+
+
 def run(ctx):
     from supp import scope as scope_mod
     proof_ok = ctx.coq_props()
@@ -249,6 +289,14 @@ def run(ctx):
         for b in bad:
             direct_bad.append((fn, text if fn.startswith(gdir) else None, b))
     cov['bindings_checked'] = nb
+    ng = 0
+    for fn, text, scope in scopes:
+        if fn.startswith(gdir) or ctx.rng.random() < 0.15:
+            k, bad = goto_failures(ctx, fn, text)
+            ng += k
+            for b in bad:
+                direct_bad.append((fn, text if fn.startswith(gdir) else None, (b[0], b[2], 'go-to-definition from %r reports a position whose text is %r' % (b[1], b[3]))))
+    cov['goto_positions_checked'] = ng
     for fn, text, b in direct_bad[:20]:
         ctx.violation('binding %r reported at %r but text there is %r (%s)' % (b[0], b[1], b[2], os.path.basename(fn)),
                       {'kind': 'direct', 'file': None if text else fn, 'source': text, 'binding': b})
